@@ -13,45 +13,58 @@ Import ListNotations.
 Open Scope N_scope.
 
 Record c12_in := mkIn { i_db : db; i_start : list N; i_steps : list step; i_raw : text }.
-Record c12_out := mkOut { o_on : option obs; o_off : option obs; o_posted : text }.
+(* how one side ended: the observable of the database afterwards, after a completed run (ROk) or after an error (RErr) *)
+Inductive robs := ROk (o:obs) | RErr (o:obs).
+Record c12_out := mkOut { o_on : robs; o_off : robs; o_posted : text }.
 
-(* the property: schema, inserted data and version rows agree (an absent and an empty version table are
-   identified by `observable` / by the harness); if one side aborts the other must abort too *)
-Definition C12_holds (i:c12_in) (o:c12_out) : Prop := o_on o = o_off o.
+(* The property.  Both runs complete with the same schema, data and version rows (an absent and an empty version table
+   are identified), or both are stopped by an error.
+   WHAT IS CLAIMED WHEN A STATEMENT FAILS: only that the other side fails as well (at the same statement, see
+   C12_abort_same_statement).  The databases left behind are NOT claimed equal, and in general are not: the offline
+   script executed statement by statement in autocommit keeps everything before the failing statement, while the
+   online run rolls the open transaction back (with the sqlite3 driver: to the first DML statement of the failing
+   step; DDL issued before it in that step stays, earlier steps are committed).  Both partial states are modelled
+   (Aborted / rolled_back) and compared exactly with the real databases by corr_C12.
+   START: `start` is [] (base) or a single revision.  A multi-head start is not expressible: `upgrade a+b:heads` and
+   `a,b:heads` are rejected (CommandError "Can't locate revision identified by 'a+b'"), and `heads:...` with two heads
+   raises CommandError (MultipleHeads) in get_current_heads — probed on every run (evidence key
+   multi_head_start_rejected). *)
+Definition C12_holds (i:c12_in) (o:c12_out) : Prop :=
+  match o_on o, o_off o with
+  | ROk a, ROk b => a = b
+  | RErr _, RErr _ => True
+  | _, _ => False
+  end.
 
 (* ---- model output on the canonical observable *)
 Definition TERM : text := [59].                  (* SQLiteImpl.command_terminator = ";" *)
+Definition robs_of (x:outcome) : robs := match x with Done d => ROk (observable d) | Aborted d => RErr (observable d) end.
 Definition model_C12 (i:c12_in) : c12_out :=
-  mkOut (option_map observable (run_online lit_c parse_c untext_c (i_db i) (i_steps i)))
-        (option_map observable (offline_effect lit_c parse_c untext_c (i_db i) (i_start i) (i_steps i)))
+  mkOut (robs_of (online_outcome lit_c parse_c untext_c (i_db i) (i_steps i)))
+        (robs_of (offline_outcome lit_c parse_c untext_c (i_db i) (i_start i) (i_steps i)))
         (exec_post TERM (i_raw i)).
 
 (* ---- decidable equality *)
-Definition value_eqb (a b : value) : bool :=
-  match a, b with
-  | VNull, VNull => true
-  | VInt x, VInt y => Z.eqb x y
-  | VText x, VText y => list_eqb N.eqb x y
-  | VNum x, VNum y => list_eqb N.eqb x y
-  | _, _ => false
-  end.
 Definition ovalue_eqb (a b : option value) : bool :=
   match a, b with Some x, Some y => value_eqb x y | None, None => true | _, _ => false end.
 Definition col_eqb (a b : col) : bool :=
-  N.eqb (c_name a) (c_name b) && N.eqb (c_type a) (c_type b) && ovalue_eqb (c_dflt a) (c_dflt b).
+  N.eqb (c_name a) (c_name b) && N.eqb (c_type a) (c_type b) && ovalue_eqb (c_dflt a) (c_dflt b)
+  && Bool.eqb (c_notnull a) (c_notnull b).
 Definition row_eqb : list value -> list value -> bool := list_eqb value_eqb.
 Definition table_eqb (a b : table) : bool :=
-  N.eqb (t_name a) (t_name b) && list_eqb col_eqb (t_cols a) (t_cols b) && list_eqb row_eqb (t_rows a) (t_rows b).
+  N.eqb (t_name a) (t_name b) && list_eqb col_eqb (t_cols a) (t_cols b) && list_eqb (list_eqb N.eqb) (t_uniq a) (t_uniq b)
+  && list_eqb row_eqb (t_rows a) (t_rows b).
 Definition index_eqb (a b : index) : bool :=
-  N.eqb (x_name a) (x_name b) && N.eqb (x_tab a) (x_tab b) && list_eqb N.eqb (x_cols a) (x_cols b).
+  N.eqb (x_name a) (x_name b) && N.eqb (x_tab a) (x_tab b) && list_eqb N.eqb (x_cols a) (x_cols b)
+  && Bool.eqb (x_unique a) (x_unique b).
 Definition obs_eqb (a b : obs) : bool :=
   list_eqb table_eqb (ob_tabs a) (ob_tabs b) && list_eqb index_eqb (ob_idx a) (ob_idx b)
   && list_eqb N.eqb (ob_vers a) (ob_vers b) && list_eqb (list_eqb N.eqb) (ob_raw a) (ob_raw b).
-Definition oobs_eqb (a b : option obs) : bool :=
-  match a, b with Some x, Some y => obs_eqb x y | None, None => true | _, _ => false end.
+Definition robs_holdsb (a b : robs) : bool :=
+  match a, b with ROk x, ROk y => obs_eqb x y | RErr _, RErr _ => true | _, _ => false end.
 
 (* decider, applied to the implementation's output *)
-Definition check_C12 (i:c12_in) (o:c12_out) : bool := oobs_eqb (o_on o) (o_off o).
+Definition check_C12 (i:c12_in) (o:c12_out) : bool := robs_holdsb (o_on o) (o_off o).
 
 (* ---- exact model-vs-implementation comparison (order of tables / rows / indexes / version rows is
    not part of the observable: compared as multisets; the raw sqlite_master text is not modelled) *)
@@ -66,15 +79,17 @@ Fixpoint perm_eqb {A} (eqb : A -> A -> bool) (a b : list A) : bool :=
   | x :: a' => match remove1 eqb x b with Some b' => perm_eqb eqb a' b' | None => false end
   end.
 Definition table_sim (a b : table) : bool :=
-  N.eqb (t_name a) (t_name b) && list_eqb col_eqb (t_cols a) (t_cols b) && perm_eqb row_eqb (t_rows a) (t_rows b).
+  N.eqb (t_name a) (t_name b) && list_eqb col_eqb (t_cols a) (t_cols b)
+  && perm_eqb (fun x y => seteqN x y) (t_uniq a) (t_uniq b) && perm_eqb row_eqb (t_rows a) (t_rows b).
 Definition obs_sim (m impl : obs) : bool :=
   perm_eqb table_sim (ob_tabs m) (ob_tabs impl) && perm_eqb index_eqb (ob_idx m) (ob_idx impl)
   && perm_eqb N.eqb (ob_vers m) (ob_vers impl).
-Definition oobs_sim (m impl : option obs) : bool :=
-  match m, impl with Some x, Some y => obs_sim x y | None, None => true | _, _ => false end.
+(* the partial state after an error is compared as exactly as the final state of a completed run *)
+Definition robs_sim (m impl : robs) : bool :=
+  match m, impl with ROk x, ROk y => obs_sim x y | RErr x, RErr y => obs_sim x y | _, _ => false end.
 Definition corr_C12 (i:c12_in) (o:c12_out) : bool :=
   let m := model_C12 i in
-  oobs_sim (o_on m) (o_on o) && oobs_sim (o_off m) (o_off o) && list_eqb N.eqb (o_posted m) (o_posted o).
+  robs_sim (o_on m) (o_on o) && robs_sim (o_off m) (o_off o) && list_eqb N.eqb (o_posted m) (o_posted o).
 
 (* ---- the class the theorems cover *)
 Definition db_atb (d:db) (start : list N) : bool :=
